@@ -202,7 +202,8 @@ def isTokenChar (c : UInt8) : Bool := 0x20 ≤ c && c ≤ 0x7E && !isSeparator c
 def isSpHt (c : UInt8) : Bool := c = 32 || c = 9
 
 structure RawParser where
-  header : Bytes := []      -- `header_` (line being collected)
+  /-- `header_` (the line being collected), most recent byte first -/
+  hrev : List UInt8 := []
   h : Headers := {}
   done : Bool := false
   deriving Repr, DecidableEq, Inhabited
@@ -217,18 +218,16 @@ def rawAddHeader (h : Headers) (line : Bytes) : Headers :=
   | _ => h.addRaw line
 
 /-- `consume(data, length, conn)`: returns the parser, the unconsumed rest, and the header set if the
-block was completed by this call (the code then calls `conn.set_response_headers`) -/
+block was completed by this call (the code then calls `conn.set_response_headers`).  A line is complete when
+the byte just appended is LF and the one before it CR; a line consisting of CRLF only ends the block. -/
 def RawParser.consume (p : RawParser) : Bytes → RawParser × Bytes × Option Headers
   | [] => (p, [], none)
   | c :: rest =>
     if p.done then (p, c :: rest, none)
-    else
-      let hd := p.header ++ [c]
-      let n := hd.length
-      if n ≥ 2 ∧ hd.drop (n - 2) = [13, 10] then
-        if n = 2 then ({ p with header := hd, done := true }, rest, some p.h)
-        else RawParser.consume { p with h := rawAddHeader p.h (hd.take (n - 2)), header := [] } rest
-      else RawParser.consume { p with header := hd } rest
+    else if c = 10 ∧ p.hrev.head? = some 13 then
+      if p.hrev.tail.isEmpty then ({ p with hrev := c :: p.hrev, done := true }, rest, some p.h)
+      else RawParser.consume { p with h := rawAddHeader p.h p.hrev.tail.reverse, hrev := [] } rest
+    else RawParser.consume { p with hrev := c :: p.hrev } rest
 
 /-! ## the devices -/
 
@@ -270,19 +269,15 @@ def Dev.write {κ : Type} (I : ConnIf κ) (d : Dev) (k : κ) (out : List Bytes) 
     let sendEof := d.final && !d.eofSend
     let d := { d with eofSend := sendEof }
     if d.rawMode && !d.raw.done then
-      -- every gathered piece goes through the header parser until it is done
-      let step := fun (acc : RawParser × κ × List Bytes) (piece : Bytes) =>
-        let r := acc.1.consume piece
-        let k' := match r.2.2 with
-          | some h => I.setHeaders acc.2.1 h
-          | none => acc.2.1
-        (r.1, k', if r.2.1.isEmpty then acc.2.2 else acc.2.2 ++ [r.2.1])
-      let r := out.foldl step (d.raw, k, [])
+      -- the gathered pieces go through the header parser (the code loops over them; the parser is
+      -- insensitive to how the bytes are cut, `RawParser.consume_append`)
+      let r := d.raw.consume out.flatten
+      let k := (r.2.2.map (I.setHeaders k)).getD k     -- `conn.set_response_headers(h_)` when the block completes
       let d := { d with raw := r.1 }
       if r.1.done || sendEof then
-        let s := I.send r.2.1 r.2.2.flatten sendEof
+        let s := I.send k r.2.1 sendEof
         if s.2 then (d, s.1, true) else ({ d with dead := true }, s.1, false)
-      else (d, r.2.1, true)
+      else (d, k, true)
     else
       let s := I.send k out.flatten sendEof
       if s.2 then (d, s.1, true) else ({ d with dead := true }, s.1, false)
